@@ -89,12 +89,30 @@ From Snax Require Import Proofs.MultiCoreCommute Proofs.C15EquivProofs.
 
 Theorem C15_pipeline_equiv_partial :
   forall p ds n m ss,
-  vids_unique p -> overtake_safe p ds -> stage_safe p ds ->
+  vids_unique p -> overtake_safe p ds n -> stage_safe p ds n ->
   (1 <= nstages p)%nat -> (nstages p - 1 <= n)%nat ->
   Forall2 schedule_of (pipe_events p ds (Z.of_nat n) 1) ss ->
   meq (exec (concat ss) m) (exec (concat (seq_events_sel p ds 0 (Z.of_nat n) 1)) m).
 Proof. exact pipeline_equiv_partial. Qed.
 Print Assumptions C15_pipeline_equiv_partial.
+
+(* the same with the footprint hypotheses decided by computation for the given trip count *)
+Theorem C15_pipeline_equiv_checked :
+  forall p ds n m ss,
+  vids_unique p -> overtake_safeb p ds n = true -> stage_safeb p ds n = true ->
+  (1 <= nstages p)%nat -> (nstages p - 1 <= n)%nat ->
+  Forall2 schedule_of (pipe_events p ds (Z.of_nat n) 1) ss ->
+  meq (exec (concat ss) m) (exec (concat (seq_events_sel p ds 0 (Z.of_nat n) 1)) m).
+Proof. exact pipeline_equiv_checked. Qed.
+Print Assumptions C15_pipeline_equiv_checked.
+
+(* non-vacuity: load / compute / store with the two intermediate buffers duplicated satisfies the
+   hypotheses (40 iterations); without the duplicates it does not *)
+Example C15_pipe3_hypotheses :
+  vids_unique pipe3 /\ overtake_safeb pipe3 [10; 11] 40 = true /\ stage_safeb pipe3 [10; 11] 40 = true /\
+  overtake_safeb pipe3 [] 40 = false.
+Proof. exact pipe3_hypotheses. Qed.
+Print Assumptions C15_pipe3_hypotheses.
 
 (* the reordering principle behind it (shared theory): a permutation that keeps the relative
    order of every conflicting pair computes the same memory *)
